@@ -101,5 +101,35 @@ def loop (e : Env) : Nat → Nat → List Act × Nat
 
 def run (e : Env) (fuel : Nat) : List Act × Nat := loop e fuel 0
 
+/-! ### `step_fork`: the handshake before the wait loop
+
+The runner forks, the child calls `setsid()` and closes its end of a pipe, the
+runner reads the pipe until end of file (`waiteof`, at most 1000 ms of 1 ms
+naps on a non-blocking descriptor, so a signal never makes the read fail).  A
+signal caught meanwhile only sets `gotsig`; the first iteration of the wait
+loop sees it unless a later signal overwrote it.  When the process group does
+not appear in time the runner reaps the child and returns its status, never
+zero ("process group failure"). -/
+
+structure Fork where
+  hsSig : Option Sig      -- caught while waiting for the process group
+  hsOk : Bool             -- end of file seen within the allowance
+  failStatus : WStatus    -- the child's wait status when the handshake fails
+
+/-- the flag as the first iteration finds it: the later signal wins -/
+def pending (e : Env) (f : Fork) : Option Sig :=
+  match e.sig 0 with
+  | some s => some s
+  | none => f.hsSig
+
+def withPending (e : Env) (f : Fork) : Env :=
+  { e with sig := fun i => if i = 0 then pending e f else e.sig i }
+
+def stepExec (e : Env) (f : Fork) (fuel : Nat) : List Act × Nat :=
+  if f.hsOk then run (withPending e f) fuel
+  else
+    let c := exitOf f.failStatus none
+    ([.reap f.failStatus], if c = 0 then 1 else c)
+
 end Runner
 end Robsd
